@@ -63,6 +63,9 @@ extern "C" {
     fn Tok_hold(this: &mut Tok, f: DiplomatCallback<u32>);
     fn Tok_call_held(this: &Tok, x: u32) -> u32;
     fn Tok_unhold(this: &mut Tok);
+    fn Tok_hold_mut(this: &mut Tok, f: DiplomatCallback<u32>);
+    fn Tok_call_held_mut(this: &mut Tok, x: u32) -> u32;
+    fn Tok_call_mut(this: &Tok, f: DiplomatCallback<u32>) -> u32;
     fn Tok_drain(this: &Tok, s: vbridge::ffi::DiplomatTraitStruct_Sink) -> u32;
     fn Tok_opt_in(this: &Tok, p: DiplomatOption<Pod>) -> u32;
     fn Tok_dopt_in(this: &Tok, p: DiplomatOption<Pod>) -> u32;
@@ -232,6 +235,9 @@ pub enum Op {
     TryCall { h: usize, d: usize, ok: bool, dtor: bool },
     Greet { h: usize, n: usize, dtor: bool },
     Hold { h: usize, dtor: bool },
+    HoldMut { h: usize, dtor: bool },
+    CallHeldMut { h: usize },
+    CallMut { h: usize, dtor: bool },
     CallHeld { h: usize },
     Unhold { h: usize },
     Drain { h: usize, dtor: bool },
@@ -282,6 +288,9 @@ pub fn op_text(op: &Op) -> String {
         TryCall { h, d, ok, dtor } => format!("try_call {} {} {} {}", h, d, b(*ok, "ok", "err"), b(*dtor, "dtor", "nodtor")),
         Greet { h, n, dtor } => format!("greet {} {} {}", h, n, b(*dtor, "dtor", "nodtor")),
         Hold { h, dtor } => format!("hold {} {}", h, b(*dtor, "dtor", "nodtor")),
+        HoldMut { h, dtor } => format!("hold_mut {} {}", h, b(*dtor, "dtor", "nodtor")),
+        CallHeldMut { h } => format!("call_held_mut {}", h),
+        CallMut { h, dtor } => format!("call_mut {} {}", h, b(*dtor, "dtor", "nodtor")),
         CallHeld { h } => format!("call_held {}", h),
         Unhold { h } => format!("unhold {}", h),
         Drain { h, dtor } => format!("drain {} {}", h, b(*dtor, "dtor", "nodtor")),
@@ -331,6 +340,9 @@ fn parse_op(t: &[&str]) -> Result<Op, String> {
         "try_call" => TryCall { h: hs(1)?, d: hs(2)?, ok: flag(3, "ok"), dtor: flag(4, "dtor") },
         "greet" => Greet { h: hs(1)?, n: num(2)?, dtor: flag(3, "dtor") },
         "hold" => Hold { h: hs(1)?, dtor: flag(2, "dtor") },
+        "hold_mut" => HoldMut { h: hs(1)?, dtor: flag(2, "dtor") },
+        "call_held_mut" => CallHeldMut { h: hs(1)? },
+        "call_mut" => CallMut { h: hs(1)?, dtor: flag(2, "dtor") },
         "call_held" => CallHeld { h: hs(1)? },
         "unhold" => Unhold { h: hs(1)? },
         "drain" => Drain { h: hs(1)?, dtor: flag(2, "dtor") },
@@ -371,6 +383,7 @@ struct Handle {
     lender: Option<usize>,
     /// callback stored inside this Tok: (data id, has destructor, foreign data pointer)
     held: Option<(u32, bool, *mut CbData)>,
+    held_is_mut: bool,
 }
 
 pub struct L2 {
@@ -429,17 +442,17 @@ impl<'t> Exec<'t> {
     fn put_tok(&mut self, h: usize, bx: Box<Tok>) {
         let id = self.next;
         self.next += 1;
-        self.hs[h] = Some(Handle { kind: Kind::Tok, ptr: Box::into_raw(bx) as *mut c_void, id, lender: None, held: None });
+        self.hs[h] = Some(Handle { kind: Kind::Tok, ptr: Box::into_raw(bx) as *mut c_void, id, lender: None, held: None, held_is_mut: false });
     }
     fn put_err(&mut self, h: usize, bx: Box<ErrTok>) {
         let id = self.next;
         self.next += 1;
-        self.hs[h] = Some(Handle { kind: Kind::ErrTok, ptr: Box::into_raw(bx) as *mut c_void, id, lender: None, held: None });
+        self.hs[h] = Some(Handle { kind: Kind::ErrTok, ptr: Box::into_raw(bx) as *mut c_void, id, lender: None, held: None, held_is_mut: false });
     }
     fn put_view(&mut self, d: usize, lender: usize, bx: Box<VView<'static>>) {
         let id = self.next;
         self.next += 1;
-        self.hs[d] = Some(Handle { kind: Kind::View, ptr: Box::into_raw(bx) as *mut c_void, id, lender: Some(lender), held: None });
+        self.hs[d] = Some(Handle { kind: Kind::View, ptr: Box::into_raw(bx) as *mut c_void, id, lender: Some(lender), held: None, held_is_mut: false });
     }
     /// a transient callback argument: after the call returns its data must be gone if it has a
     /// destructor; otherwise the foreign side still owns it and releases it now
@@ -706,7 +719,7 @@ impl<'t> Exec<'t> {
                     return Err(self.v("O5-value-integrity", "fill wrote wrong values".into()));
                 }
             }
-            Call { h, dtor } | Ignore { h, dtor } => {
+            Call { h, dtor } | Ignore { h, dtor } | CallMut { h, dtor } => {
                 let t = match self.tok_ref(*h) {
                     Some(t) => t,
                     None => return Ok(false),
@@ -714,9 +727,11 @@ impl<'t> Exec<'t> {
                 let id = self.tok(*h).unwrap().id;
                 let (cb, data, cbid) = make_cb(*dtor);
                 self.next += 1;
-                let is_call = matches!(op, Call { .. });
+                let is_call = matches!(op, Call { .. } | CallMut { .. });
                 let got = unsafe {
-                    if is_call {
+                    if matches!(op, CallMut { .. }) {
+                        Tok_call_mut(t, cb)
+                    } else if is_call {
                         Tok_call(t, cb)
                     } else {
                         Tok_ignore(t, cb)
@@ -786,7 +801,7 @@ impl<'t> Exec<'t> {
                 }
                 self.after_transient_cb(data, cbid, *dtor, Some(1))?;
             }
-            Hold { h, dtor } => {
+            Hold { h, dtor } | HoldMut { h, dtor } => {
                 if self.tok(*h).is_none() || self.has_dependents(*h) {
                     return Ok(false);
                 }
@@ -794,7 +809,19 @@ impl<'t> Exec<'t> {
                 let (cb, data, cbid) = make_cb(*dtor);
                 self.next += 1;
                 let old = self.hs[*h].as_mut().unwrap().held.take();
-                unsafe { Tok_hold(&mut *p, cb) };
+                let is_mut = matches!(op, HoldMut { .. });
+                unsafe {
+                    if is_mut {
+                        Tok_hold_mut(&mut *p, cb)
+                    } else {
+                        Tok_hold(&mut *p, cb)
+                    }
+                };
+                self.hs[*h].as_mut().unwrap().held_is_mut = is_mut;
+                // a callback Rust retains must still be alive right after the call that stored it
+                if !ledger::is_live(cbid) {
+                    return Err(self.v("O2-premature-drop", format!("callback data #{} was released although Rust still holds the callback", cbid)));
+                }
                 if let Some((oid, odtor, odata)) = old {
                     // the replaced callback was dropped by Rust
                     self.after_transient_cb(odata, oid, odtor, None)?;
@@ -807,13 +834,30 @@ impl<'t> Exec<'t> {
                     None => return Ok(false),
                 };
                 let held = self.tok(*h).unwrap().held;
+                let is_mut = self.tok(*h).unwrap().held_is_mut;
                 let got = unsafe { Tok_call_held(t, 40) };
                 let want = match held {
-                    Some((cbid, _, _)) => 40 + cbid,
-                    None => 0,
+                    Some((cbid, _, _)) if !is_mut => 40 + cbid,
+                    _ => 0,
                 };
                 if got != want {
                     return Err(self.v("O5-value-integrity", format!("held callback returned {} expected {}", got, want)));
+                }
+            }
+            CallHeldMut { h } => {
+                if self.tok(*h).is_none() || self.has_dependents(*h) {
+                    return Ok(false);
+                }
+                let p = self.tok(*h).unwrap().ptr as *mut Tok;
+                let held = self.tok(*h).unwrap().held;
+                let is_mut = self.tok(*h).unwrap().held_is_mut;
+                let got = unsafe { Tok_call_held_mut(&mut *p, 40) };
+                let want = match held {
+                    Some((cbid, _, _)) if is_mut => 40 + cbid,
+                    _ => 0,
+                };
+                if got != want {
+                    return Err(self.v("O5-value-integrity", format!("held FnMut callback returned {} expected {}", got, want)));
                 }
             }
             Unhold { h } => {
@@ -1038,6 +1082,9 @@ fn op_kind(op: &Op) -> u32 {
         TryCall { ok, dtor, .. } => 33 + *ok as u32 * 2 + *dtor as u32,
         Greet { dtor, .. } => 56 + *dtor as u32,
         Hold { dtor, .. } => 37 + *dtor as u32,
+        HoldMut { dtor, .. } => 58 + *dtor as u32,
+        CallHeldMut { .. } => 60,
+        CallMut { dtor, .. } => 61 + *dtor as u32,
         CallHeld { .. } => 39,
         Unhold { .. } => 40,
         Drain { dtor, .. } => 41 + *dtor as u32,
@@ -1279,7 +1326,10 @@ pub fn gen_trace(seed: u64, run: u64, c12: bool) -> Trace {
                     _ => Op::Fill { h, n },
                 }
             }
-            4 => match rng.below(10) {
+            4 => match rng.below(13) {
+                10 => Op::HoldMut { h, dtor },
+                11 => Op::CallHeldMut { h },
+                12 => Op::CallMut { h, dtor },
                 9 => Op::Greet { h, n: rng.below(4) as usize, dtor },
                 0 | 1 => Op::Call { h, dtor },
                 2 => Op::CallTwice { h, d1: dtor, d2: rng.below(16) >= nodtor_rate },
